@@ -145,6 +145,7 @@ structure PState where
   vstack : List (List (String × Val))
   rstack : List Rule
   maxFailPos : Pos
+  /-- `maxFailExpected`, most recent first (the Go slice appends) -/
   maxFailExpected : List String
   maxFailInvert : Bool
   exprCnt : Nat
@@ -239,7 +240,7 @@ def failAt (s : PState) (fail : Bool) (pos : Pos) (want : String) : PState :=
       let s1 := if pos.off > s.maxFailPos.off then
                   { s with maxFailPos := pos, maxFailExpected := [] } else s
       let want := if s.maxFailInvert then "!" ++ want else want
-      { s1 with maxFailExpected := s1.maxFailExpected ++ [want] }
+      { s1 with maxFailExpected := want :: s1.maxFailExpected }
   else s
 
 /-- `read`: advance to the next rune -/
@@ -614,7 +615,7 @@ def finish (E : Env) : Outcome → Final
   | .done v ok s =>
     if !ok then
       if s.errs.isEmpty then
-        let s' := addErrAt E s (noMatchMessage s.maxFailExpected).1 s.maxFailPos
+        let s' := addErrAt E s (noMatchMessage s.maxFailExpected.reverse).1 s.maxFailPos
         .ret .nil (dedupe s'.errs) s'
       else .ret .nil (dedupe s.errs) s
     else .ret v (dedupe s.errs) s
